@@ -757,6 +757,16 @@ func runHostile(in *hIn) (res string, value string, ops string, allocBytes uint6
 		if tb != nil {
 			macOps(c, "t.", tb, len(b) <= bigInput)
 		}
+	case "builtin":
+		// cryptographically CONSISTENT hostile constructions (byte mutation never reaches them), built with the
+		// public API; each runs alone in its own worker
+		dec = "?"
+		var pan any
+		alloc, pan = measured(func() { hostileBuiltin(in.tag) })
+		if pan != nil {
+			c.panics = append(c.panics, "builtin")
+			c.first = panicLine(pan)
+		}
 	case "hdr":
 		dec = "?"
 		hdr := string(b)
@@ -855,6 +865,46 @@ func famHostileChild(r *Rng, o *Out, tier string) {
 		if solo {
 			return
 		}
+	}
+}
+
+// hostileBuiltin: discharges that name themselves (or each other) as the discharge of their own third-party
+// caveat.  A holder can build them without any issuer secret.  Verification must end (with an error).
+func hostileBuiltin(tag string) {
+	root, err := macaroon.New([]byte("kid"), hLoc, hKey)
+	if err != nil {
+		panic(err)
+	}
+	switch {
+	case strings.HasPrefix(tag, "selfref.discharge"):
+		c3, _ := macaroon.NewCaveat3P(hKA, hLoc3)
+		_ = root.Add(c3)
+		_, dis, err := macaroon.DischargeTicket(hKA, hLoc3, c3.Ticket)
+		if err != nil {
+			panic(err)
+		}
+		_ = dis.Add(c3) // the discharge demands ... itself
+		db, _ := dis.Encode()
+		rb, _ := root.Encode()
+		m, _ := macaroon.Decode(rb)
+		_, _ = m.Verify(hKey, [][]byte{db}, nil)
+		_, _ = m.Verify(hKey, [][]byte{db, db}, map[string][]macaroon.EncryptionKey{hLoc3: {hKA}})
+	case strings.HasPrefix(tag, "mutual.discharges"):
+		ca, _ := macaroon.NewCaveat3P(hKA, hLoc3)
+		cb, _ := macaroon.NewCaveat3P(hKA, "https://tp-b.example")
+		_ = root.Add(ca)
+		_, da, _ := macaroon.DischargeTicket(hKA, hLoc3, ca.Ticket)
+		_, dbm, _ := macaroon.DischargeTicket(hKA, "https://tp-b.example", cb.Ticket)
+		_ = da.Add(cb)  // A's discharge demands B's
+		_ = dbm.Add(ca) // B's discharge demands A's
+		ab, _ := da.Encode()
+		bb, _ := dbm.Encode()
+		rb, _ := root.Encode()
+		m, _ := macaroon.Decode(rb)
+		_, _ = m.Verify(hKey, [][]byte{ab, bb}, nil)
+		_, _ = m.Verify(hKey, [][]byte{bb, ab}, nil)
+	default:
+		panic("unknown builtin " + tag)
 	}
 }
 
@@ -2254,6 +2304,8 @@ func famHostile(r *Rng, o *Out, tier string) {
 	g.addRep("cavs", "deepfatal.map16.val1.over200", unhx("92cf0001000000000007de0002a161c0a162"), []byte{0x91}, 1000000, []byte{0xc0})
 	g.addRep("cavs", "deepfatal.map32.key1.over200", unhx("9211df00000002a161c0"), []byte{0x91}, 1000000, []byte{0xc0, 0xc0})
 	g.addRep("mac", "deepfatal.tok.skipped.arr32.last.over200", unhx("81a14add00000003c0c0"), []byte{0x91}, 1000000, []byte{0xc0})
+	g.addRep("builtin", "selfref.discharge", nil, nil, 0, nil)
+	g.addRep("builtin", "mutual.discharges", nil, nil, 0, nil)
 	if tier == "thorough" {
 		g.addRep("cavs", "deepfatal.unreg.arr.over200", t99999, []byte{0x91}, 4000000, []byte{0xc0})
 		g.addRep("cavs", "deepfatal.unreg.map.over200", []byte{0x92, 0x11}, []byte{0x81, 0xa1, 0x61}, 1000000, []byte{0xc0})
